@@ -40,6 +40,9 @@ def TypedVals.num (t : TypedVals) (k : Kw) : Rat :=
   | .real => t.real k
   | _ => 0
 
+@[simp] theorem truncRat_intCast (i : Int) : truncRat (i : Rat) = i := by
+  simp [truncRat, Int.tdiv_one]
+
 theorem kw_ty_ne_other (k : Kw) (s : String) : k.ty ≠ .other s := by cases k <;> simp [Kw.ty]
 
 /-- the typed description of a parameter map -/
@@ -109,12 +112,5 @@ end MonadEqs
 @[simp] theorem seqE_error (e : Err) (k : Except Err Unit) : seqE (.error e) k = .error e := rfl
 @[simp] theorem seqE_ite (c : Prop) [Decidable c] (x y k : Except Err Unit) :
     seqE (if c then x else y) k = if c then seqE x k else seqE y k := by split <;> rfl
-
-/-- a check on a keyword whose value has the predicate's type -/
-theorem runCheck_typed (n : Nat) (t : TypedVals) (c : VStep) (x : Rat)
-    (hty : (t.val c.kw).ty = c.pred.ty) (hx : (t.val c.kw).num? = some x) :
-    runCheck n t.get c =
-      if c.pred.holds (n : Int) x then .ok () else if c.orThrow = true then .error (errS .wrong_parameter_error) else .ok () := by
-  simp [runCheck, TypedVals.get, hty, hx]
 
 end TapkeeVerif.Params
